@@ -214,6 +214,8 @@ def run(m, tier):
     results += shapes_rules.c14_rules(m)
     from rules import reader_interp
     results.append(reader_interp.cpp_rule(m, "C14.R13", tier))
+    from rules import prog_rules
+    results.append(prog_rules.directive_rule(m, "C14.R14", tier))
     expl = ("Decides structural clauses of C14: registry exhaustiveness (Cpp_*_Stmt classes == CPP_CLASS_NAMES); for each of the 14 "
             "directive kinds the reader's '#' predicate and exactly the expected class's head pattern accept the canonical samples; "
             "backslash continuation joins into one CppDirective item before any Fortran interpretation of the line; the directive "
